@@ -1,7 +1,8 @@
 (* Entry points of the extracted model: [run cmd arg]. *)
 From Coq Require Import NArith List Bool.
 From PV Require Import Base.Sx Model.Forest Model.Table Model.LRDriver Model.Scan Model.Parser
-  Validators.TableStruct Validators.ForestSound Validators.TableComplete Validators.TableProgress Model.Errors Extract.Codec.
+  Validators.TableStruct Validators.ForestSound Validators.TableComplete Validators.TableProgress
+  Validators.LexSep Validators.ItemsSound Model.Errors Extract.Codec.
 From PV Require Import Extract.RunC19.
 From PV Require Import Extract.RunC12.
 From PV Require Import Extract.RunC09.
@@ -108,6 +109,21 @@ Definition run_forest_labelled (s : sx) : sx :=
 Definition run_table_progress (s : sx) : sx :=
   ofB (table_progress (grammar_of_sx (sx_nth s 0)) (table_of_sx (sx_nth s 1)) (sxN (sx_nth s 2))).
 
+(* 13: sep_tokens (pconf pinput pos0 ((y s e) ...)) -- ws-based layout *)
+Definition run_sep_tokens (s : sx) : sx :=
+  let c := pconf_of_sx (sx_nth s 0) in
+  let inp := pinput_of_sx (sx_nth s 1) in
+  let toks := map (fun x => (sxN (sx_nth x 0), sxN (sx_nth x 1), sxN (sx_nth x 2))) (sxL (sx_nth s 3)) in
+  ofB (sep_tokens (rx_of inp) (in_len inp) (pc_stop c) (pc_tb c)
+                  (fun p => Some (skip_ws (pc_ws c) inp p)) (sxN (sx_nth s 2)) toks).
+
+(* 14: items_sound (grammar table) *)
+Definition run_items_sound (s : sx) : sx :=
+  let g := grammar_of_sx (sx_nth s 0) in
+  let tb := table_of_sx (sx_nth s 1) in
+  L [ofB (items_sound g tb); ofB (states_closure_ok g tb 0 tb); ofB (nonempty_items tb 0);
+     ofB (all_productive g); ofB (sprime_unique g)].
+
 Definition run (cmd : N) (arg : sx) : sx :=
   match cmd with
   | 1 => run_forest_stats arg
@@ -122,6 +138,8 @@ Definition run (cmd : N) (arg : sx) : sx :=
   | 10 => run_det_table arg
   | 11 => run_forest_labelled arg
   | 12 => run_table_progress arg
+  | 13 => run_sep_tokens arg
+  | 14 => run_items_sound arg
   | 190 => run_c19_unescape arg
   | 191 => run_c19_build arg
   | 192 => run_c19_match arg
